@@ -155,6 +155,15 @@ func TestC04(t *testing.T) {
 	rec := ev.New(t, "C04")
 	rec.Rule("rapid-generated histories: 2..4 client goroutines x 8..20 operations over 2..3 keys (Put/Get/Delete/PrefixAppend/PrefixContains/PrefixRemove/PrefixList, unique put values, 3 children) issued ONCE each through generated live entry nodes (any node whose Join returned and that has not finished leaving), concurrently with a generated churn plan (1..3 phases of 1..3 concurrent joins/leaves, ids next to the keys' hashes, seeded call delays). Oracle: (1) every error is retryable or one of the two documented semantic conflicts; (2) per key, the history of SUCCESSFUL operations (failed ones must be no-ops, so they are left out: any effect they had makes a later read inexplicable) is linearizable w.r.t. a register + set model (porcupine, 20 s budget, unknown = inconclusive). Non-trivial: >= 2 clients touched one key and >= 1 operation overlapped a membership action in time. Distinct = distinct plans.")
 	rec.Assume("timestamps from the process-wide monotonic clock; porcupine v1.3.0 is trusted as the linearizability checker")
+	// regression tier: the minimal schedule of a non-retryable failure found by the thorough tier
+	if p := joiningNodeKVWindow(); p != "" {
+		if len(p) > 13 && p[:13] == "precondition:" {
+			rec.Inconclusive("regression-schedule-precondition")
+			t.Logf("joining-node regression: %s", p)
+		} else {
+			rec.Fail(t, "kv-request-routed-to-joining-node-fails-non-retryably", map[string]any{"schedule": "ring {1<<44, 3<<44}; 2<<44 joins via 3<<44; the RequestToJoin response is held; 1<<44 stabilizes, fixes fingers and looks up a key in (2<<44, 3<<44] through its finger 2<<44", "problem": p}, "%s", p)
+		}
+	}
 	ev.RapidCheck(t, 30, 1000, func(t *rapid.T) {
 		p := genC04Plan(ev.Pick(4, 6)).Draw(t, "plan")
 		r := newChurnRing(p.Churn, false)
